@@ -22,7 +22,7 @@ Clauses (bands frozen in vlib/c10_band.json after calibration on the unchanged t
   A1  median over seeds of estimated / injected noise inside [0.5, 3.0]
   A2  (cells at the lowest noise level that have a bundled *_INVALID counterpart, same seeds)
       median over seeds of chi2(invalid) / chi2(valid) >= 5
- pooled over >= 200 points (noise model of the mock data, the premise of the statement)
+ pooled over >= 400 points with independent seeds (noise model of the mock data, the premise of the statement)
   A3  the realised noise  (Z_noisy - Z_ideal) / (pct/100 * |Z_ideal|)  has rms 1 and mean 0 in the real and in the
       imaginary part, also on the subsets of points where |Re Z| < |Z|/2 and where |Im Z| < |Z|/2
 
